@@ -505,7 +505,7 @@ HOSTILE_LUA = [
     ("string-format-many", "return string.format(string.rep('%s', 200), unpack({}))"),
     ("string-format-width", "return string.format('%99999d', 1)"),
     ("string-format-star", "return string.format('%5$s', 1)"),
-    ("pattern-backtrack", "return string.find(string.rep('a', 30) .. 'b', string.rep('a*', 30) .. 'c')"),
+    ("pattern-backtrack", "return string.find(string.rep('a', 14) .. 'b', string.rep('a*', 14) .. 'c')"),
     ("pattern-unbalanced", "return string.find('x', '[')"),
     ("gsub-huge", "return #string.gsub(string.rep('a', 100000), 'a', 'bbbbbbbbbb')"),
     ("table-concat-huge", "local t = {} for i = 1, 200000 do t[i] = 'xxxxxxxx' end return #table.concat(t)"),
@@ -555,7 +555,7 @@ def valgrind_stage(binary, seed):
     known = util.Known()
     scratch = Result()
     srv = server.Server(binary, start_timeout=120.0)
-    vglog = os.path.join(srv.dir, "memcheck.log")
+    vglog = os.path.join(srv.dir, "memcheck.%p.log")
     srv.wrapper = ["valgrind", "--tool=memcheck", "--quiet", "--error-exitcode=0", "--num-callers=24",
                    "--log-file=" + vglog, "--max-stackframe=8388608"]
     srv.start()
@@ -577,7 +577,12 @@ def valgrind_stage(binary, seed):
                     if not srv.alive():
                         res.violation("crash/memcheck/%s" % tag, "server under valgrind exited %s on hostile script %s\n%s" % (
                             srv.exit_status(), tag, srv.stderr_tail(1500)))
-                        srv.start()
+                    else:
+                        # 25-50x slower than native: a script that does not finish in 120 s is skipped
+                        # (scripts have no time limit - known finding of C06 - so the child must go)
+                        res.count("memcheck_scripts_timed_out")
+                        srv.kill()
+                    srv.start()
                     c = srv.client(timeout=120)
         try:
             semantics_table(srv, scratch, known, util.rng_for(seed, "vg"))
@@ -588,10 +593,13 @@ def valgrind_stage(binary, seed):
     finally:
         srv.kill(signal.SIGTERM)
         time.sleep(0.5)
+        text = ""
         try:
-            text = open(vglog, "r", errors="replace").read()
+            for fn in sorted(os.listdir(srv.dir)):
+                if fn.startswith("memcheck.") and fn.endswith(".log"):
+                    text += open(os.path.join(srv.dir, fn), "r", errors="replace").read()
         except OSError:
-            text = ""
+            pass
         srv.cleanup()
     res.evaluations += ran
     res.count("memcheck_scripts_run", ran)
